@@ -3,7 +3,7 @@ namespace vf{
 
 bool random_state(HState &h, Rng &rng, CaseCtx &c, GenOpts const &go, int max_steps){
     if (!init_history(h, rng, go, c)) return false;
-    HOpts ho; ho.max_points = go.max_points;
+    HOpts ho; ho.max_points = go.max_points; ho.construction_bias = 3.0; // states inside a construction carry the most optional data
     int nsteps = rng.range(0, max_steps);
     for(int i=0; i<nsteps; i++){
         Step s = choose_step(h, rng, ho);
